@@ -69,10 +69,10 @@ def profile(h=0):
     return p
 
 
-def raw_rows(data, kwargs=None):
+def raw_rows(data, kwargs=None, encoding=None):
     if data is None:
         return None
-    return list(csv.reader(io.StringIO(data.decode("utf-8"), newline=""), **(kwargs or {})))
+    return list(csv.reader(io.StringIO(data.decode(encoding or "utf-8"), newline=""), **(kwargs or {})))
 
 
 class Runner(HistoryRunner):
@@ -82,11 +82,11 @@ class Runner(HistoryRunner):
         is_upd = op["op"] in UPDATES
         if is_upd and self.rng is not None and self.rng.random() < 0.04:
             op = dict(op, args={})  # nothing to do -> documented ValueError
-        pre_rows = raw_rows(s.file_bytes(), s.cfg.get("csv")) if (is_upd and s.path) else None
+        pre_rows = raw_rows(s.file_bytes(), s.cfg.get("csv"), s.cfg.get("encoding")) if (is_upd and s.path) else None
         pre_model = s.model.copy() if is_upd else None
         ok = HistoryRunner._write(self, s, op)
         if is_upd and ok and pre_rows is not None:
-            post_rows = raw_rows(s.file_bytes(), s.cfg.get("csv"))
+            post_rows = raw_rows(s.file_bytes(), s.cfg.get("csv"), s.cfg.get("encoding"))
             sel = set(pre_model._sel(op.get("q"), mutjudge._sel_m(op))) if op.get("args") else set()
             if len(post_rows) == len(pre_rows):
                 for i, (a, b) in enumerate(zip(pre_rows, post_rows)):
@@ -116,6 +116,8 @@ def _cfg_variant(cfg, h):
     """Every third CSV history runs with flush_on_insert=False (reads go through the same buffered handle)."""
     if cfg["storage"] == "csv" and h % 11 == 5:
         return dict(cfg, access_mode="w+")  # a database created with "w+" and then used for everything
+    if cfg["storage"] == "csv" and h % 13 == 8:
+        return dict(cfg, encoding="latin-1")  # every file the storage opens must be opened with it, scratch files included
     if cfg["storage"] == "csv" and h % 3 == 0:
         return dict(cfg, flush=False)
     if cfg["storage"] == "csv" and h % 7 == 4:
@@ -139,7 +141,14 @@ def run(res, tier, seed, shard, nshards):
         for ci, cfg in enumerate(CONFIGS):
             for h in range(N_HIST[tier]):
                 rng = rng_for("C03", tier, seed, shard, ci, h)
-                s = Runner(res, _cfg_variant(cfg, h), scratch, rng, _wild(profile(h), h, rng, res), judge).run()
+                cfgv = _cfg_variant(cfg, h)
+                prof = _wild(profile(h), h, rng, res)
+                if cfgv.get("encoding"):
+                    # text the configured encoding can express and ASCII cannot
+                    prof.extra_tag_vals = list(prof.extra_tag_vals) + ["\u00e9t\u00e9", "\u00fc", "\u00a3"]
+                    prof.extra_meas = list(prof.extra_meas) + ["m\u00e9t\u00e9o"]
+                    res.count("histories_non_default_encoding")
+                s = Runner(res, cfgv, scratch, rng, prof, judge).run()
                 if h == 0 and shard == 0 and ci in (1, 2):
                     res.sample({"config": cfg_name(cfg), "first_ops": s.log[:5]})
     for b in contracts.drain(res):
